@@ -3,6 +3,19 @@
 import json, glob, os
 
 STRENGTHENED = {
+ 'C01c-readindex-batch-aliases-queue': 'E2 clients now wait for a result only as long as the replica needs to process 4x the deadline in ticks (+200): the reads that this change leaves without any result no longer hang the clients until the watchdog (first trial: watchdog, then the crash key)',
+ 'C02c-maxindex-record-never-shrinks': 'E1: one case in eight keeps the raft state of every replica in a real sharded Pebble store that is reopened at restart; the recovered log and hard state are compared with what was saved (C02 / C03 / C04)',
+ 'C03c-pebble-cache-ignores-vote': '(same: real store under E1, vote-lost-across-restart)',
+ 'C05c-batch-path-skips-sessions': 'rsmcheck/sessions: the same streams also run through a concurrent state machine (batched apply path) with PRNG task boundaries',
+ 'C06c-read-joins-inflight-round': 'new E2 readstorm stage (C06, C01): a slowly applying follower under a storm of linearizable reads, decided by the history oracle',
+ 'C11c-waitready-double-offload': 'contract stage: restarts with Config.WaitReady that race with a stop of the same replica, dwelling RecoverFromSnapshot',
+ 'C12c-gc-skipped-when-quiesced': 'progress stage: Quiesce cases idle long enough to go quiescent before the no-quorum probe; directed quiesced-leader-loss prefix. (This change relied on defect #16 of the unchanged tree - proposals did not wake a quiesced replica - found through it and fixed)',
+ 'C13c-shared-decompress-buffer': 'new rsmcheck/payload stage for C13 (apply path: plain / encoded / Snappy entries, per-entry and batched); Snappy entry compression in a third of the E2 lifetimes',
+ 'C14c-final-validation-skipped-with-external-files': 'the receiver-side chunk stage (snapcheck/chunks) is registered for C14 as well (corrupted or truncated streams must not be finalized)',
+ 'C15c-stream-chunks-alias-block-buffer': 'a stream source of more than two blocks in the quick tier of snapcheck/chunks',
+ 'C16c-ondisk-shrink-without-sync-on-initial-recover': 'importer stage: power loss at the first SaveRaftState after the import (PreSave hook), right after the first start, and after a second restart; registered for C16; the on-disk harness state machine no longer treats RecoverFromSnapshot as durable before Sync (first measured after the strengthening)',
+ 'C17c-idle-send-queue-never-removed': 'hook H3c (idle timeout of the transport send queues, 300-900 ms in the progress stage) (first measured after the strengthening)',
+ 'C20c-imported-snapshot-never-considered-shrunk': 'importer stage: second restart (graceful and after a power loss) of the repaired replicas (first measured after the strengthening)',
  'C01-nonvoting-heartbeat-hint-stale-read': 'E1 scheduler: membership requests add the non-voting member first, a partition shape that keeps the leader with the non-voting members only, partition phases lasting several election timeouts',
  'C02-prevote-candidate-forgets-vote': 'C02 mode biased to 5 voters / long partitions / crashes; the divergence itself stays too rare (needs two leaders of one term that both commit), the change is caught through the vote monitor of C03',
  'C03-transfer-target-skips-cc-guard': 'monitor added: no campaign while a committed membership change is not applied (C03 and C07)',
